@@ -269,7 +269,10 @@ var c04Fixtures = []string{"flat24", "nest", "tiny", "rep3"}
 func TestC04(t *testing.T) { rapid.Check(t, propC04) }
 
 // FuzzC04: the same property driven by Go's coverage-guided fuzzer (thorough tier).
-func FuzzC04(f *testing.F) { f.Fuzz(rapid.MakeFuzz(propC04)) }
+func FuzzC04(f *testing.F) {
+	fuzzSeeds(f)
+	f.Fuzz(rapid.MakeFuzz(propC04))
+}
 
 func propC04(t *rapid.T) {
 	cfg := foreignCfg{fixtures: fixturesFromEnv(c04Fixtures), maxRecs: envInt("VERIF_MAXRECS", 120), gen: vt.DefaultGen}
